@@ -102,7 +102,10 @@ def _one(rng, kind, n):
 def run(ctx):
     C.coq_lib()
     ctx.trusted = TRUSTED
+    from harness import wlevels
+    wlevels.translate_skip(ctx)
     ctx.coq_file(os.path.join(C.COQ, "props", "C01.v"))
+    ctx.coq_file(os.path.join(C.COQ, "props", "C01_pages.v"))
     bad = C.hygiene()
     ctx.obligation("hygiene: no Admitted/Axiom/Parameter/... in coq/", not bad, "; ".join(bad))
     C.shadow()
@@ -162,6 +165,9 @@ def run(ctx):
             ctx.correspondence("offsets_int/slices ~ row groups written by iter_dataframe", case, [x for x in mo if x], impl)
         else:
             ctx.correspondence("pages(rpp) ~ data-page value counts of write_column (rpp = first page)", case, mo, impl)
+    # page-level tie: make_definitions / encode_dict / skip_definition_bytes vs Impl/WLevels.v + spec decoder oracle
+    C.use_shadow()
+    wlevels.run(ctx, pq)
     pq.close()
 
 
